@@ -269,13 +269,19 @@ pub fn run(args: &Args) -> i32 {
     if thorough {
         ranges.push((i32::MIN as i64 + 1, i32::MAX as i64));
     } else {
-        ranges.push((-200_000, 200_000));
+        ranges.push((-2_000_000, 2_000_000));
         ranges.push((i32::MIN as i64 + 1, i32::MIN as i64 + 5000));
         ranges.push((i32::MAX as i64 - 5000, i32::MAX as i64));
         for k in 0..31 {
             let p = 1i64 << k;
-            ranges.push((p - 2, p + 2));
-            ranges.push((-p - 2, -p + 2));
+            ranges.push((p - 3700, (p + 3700).min(i32::MAX as i64)));
+            ranges.push(((-p - 3700).max(i32::MIN as i64 + 1), -p + 3700));
+        }
+        let mut p = 10i64;
+        while p < i32::MAX as i64 {
+            ranges.push((p - 3700, p + 3700));
+            ranges.push((-p - 3700, -p + 3700));
+            p *= 10;
         }
         for h in [99i64, 100, 101, 999, 1000, 9999, 10000, 99999, 100000, 596523] {
             ranges.push((h * 3600 - 61, (h * 3600 + 61).min(i32::MAX as i64)));
@@ -301,7 +307,94 @@ pub fn run(args: &Args) -> i32 {
             .reduce(Tally::default, Tally::merge);
         total = total.merge(t);
     }
+    // every whole hour of the i32 range -61..+61 s around it would be 7 x 10^7 cases; quick: the seconds -1, 0, +1, +59, +60, +61
+    // around every whole hour (both signs)
+    if !thorough {
+        let hours: i64 = i32::MAX as i64 / 3600;
+        let t = (-hours..=hours)
+            .into_par_iter()
+            .map(|h| {
+                let mut tl = Tally::default();
+                for d in [-61i64, -60, -59, -1, 0, 1, 59, 60, 61] {
+                    let off = h * 3600 + d;
+                    if off > i32::MIN as i64 && off <= i32::MAX as i64 {
+                        let (t, ns) = instants[(h & 1) as usize];
+                        offset_case(off as i32, t, ns, &rec, "offsets", &mut tl);
+                    }
+                }
+                tl
+            })
+            .reduce(Tally::default, Tally::merge);
+        total = total.merge(t);
+    }
     rec.sub("offsets", json!({"evaluations": total.evals, "nontrivial": total.nontrivial}));
+    // (1b) nanosecond field: every value below 200 000, a lattice of step 997 over the whole field, windows around d x 10^k
+    // (thorough: every one of the 10^9 values), rendered through UtcDateTime and a zoned date-time
+    {
+        let mut nsv: Vec<u32> = (0..200_000u32).collect();
+        if thorough {
+            nsv = vec![];
+        } else {
+            let mut x = 0u64;
+            while x < 1_000_000_000 {
+                nsv.push(x as u32);
+                x += 997;
+            }
+            let mut p = 1u64;
+            while p < 1_000_000_000 {
+                for d in 1..=10u64 {
+                    for e in -3i64..=3 {
+                        let v = (d * p) as i64 + e;
+                        if (0..1_000_000_000).contains(&v) {
+                            nsv.push(v as u32);
+                        }
+                    }
+                }
+                p *= 10;
+            }
+            for e in 0..2000u32 {
+                nsv.push(999_999_999 - e);
+            }
+        }
+        let ltt = LocalTimeType::with_ut_offset(-12_600).unwrap();
+        let one = |ns: u32, tl: &mut Tally| {
+            tl.evals += 1;
+            let r = guard(|| -> Result<u64, (Value, Value)> {
+                let u = UtcDateTime::from_timespec(1_700_000_000, ns).map_err(|e| (json!("UtcDateTime"), json!(format!("{e:?}"))))?;
+                let d = DateTime::from_timespec_and_local(-1, ns, ltt).map_err(|e| (json!("DateTime"), json!(format!("{e:?}"))))?;
+                Ok(check_utc(&u)?.wrapping_add(check_dt(&d)?))
+            });
+            match r {
+                Ok(Ok(dg)) => tl.digest = tl.digest.wrapping_add(dg),
+                Ok(Err((e, g))) => rec.violation("nanoseconds", json!({"kind":"offset","offset":-12600,"t":-1,"ns":ns}), e, g),
+                Err(m) => rec.violation("nanoseconds", json!({"kind":"offset","offset":-12600,"t":-1,"ns":ns}), json!("no panic"), json!(m)),
+            }
+        };
+        let t = if thorough {
+            (0..1000u32)
+                .into_par_iter()
+                .map(|blk| {
+                    let mut tl = Tally::default();
+                    for ns in blk * 1_000_000..(blk + 1) * 1_000_000 {
+                        one(ns, &mut tl);
+                    }
+                    tl
+                })
+                .reduce(Tally::default, Tally::merge)
+        } else {
+            nsv.par_chunks(4096)
+                .map(|c| {
+                    let mut tl = Tally::default();
+                    for &ns in c {
+                        one(ns, &mut tl);
+                    }
+                    tl
+                })
+                .reduce(Tally::default, Tally::merge)
+        };
+        rec.sub("nanoseconds", json!({"evaluations": t.evals, "all_values": thorough}));
+        total = total.merge(t);
+    }
     // i32::MIN offset cannot be constructed
     assert!(LocalTimeType::with_ut_offset(i32::MIN).is_err());
 
@@ -311,6 +404,23 @@ pub fn run(args: &Args) -> i32 {
     for y in -span..=span {
         years.push(y);
     }
+    // width thresholds of the year field: +-10^k and +-2^k, -2..+2
+    let mut p = 10i64;
+    while p < i32::MAX as i64 {
+        for e in -2..=2 {
+            years.push((p + e) as i32);
+            years.push((-p + e) as i32);
+        }
+        p *= 10;
+    }
+    for k in 7..31 {
+        for e in -1..=1 {
+            years.push(((1i64 << k) + e) as i32);
+            years.push((-(1i64 << k) + e) as i32);
+        }
+    }
+    years.sort();
+    years.dedup();
     let offs: &[i32] = &[0, 1, -1, 59, -59, 60, -60, 3599, -3599, 3600, -3600, 19800, -12600, 45296, -45296, 86399, 360000, -360000, 359999, i32::MAX, i32::MIN + 1];
     let nss: &[u32] = &[0, 1, 9, 10, 99_999_999, 100_000_000, 123_456_789, 999_999_999];
     let t = years
@@ -350,7 +460,7 @@ pub fn run(args: &Args) -> i32 {
 
     rec.add(total.evals, total.nontrivial);
     rec.digest("fmt", total.digest);
-    rec.set_rule("every listed (offset) and (fields, ns, offset) case is rendered with Display into a stack buffer and read back by an independent strict reader; fields, ns, offset, 'Z' iff offset 0, ':SS' iff offset%60!=0 must match. non-trivial = offsets that are not whole minutes, need >2 hour digits or are negative and smaller than an hour; years outside 0..9999; second 60");
+    rec.set_rule("offsets: every offset in +-2 000 000, +-3700 around +-2^k and +-10^k, -61..+61 around every whole hour of the i32 range (thorough: every i32 offset); nanoseconds: every value < 200 000, step-997 lattice, windows at d x 10^k (thorough: all 10^9 values); years incl. +-10^k, +-2^k; every listed (offset) and (fields, ns, offset) case is rendered with Display into a stack buffer and read back by an independent strict reader; fields, ns, offset, 'Z' iff offset 0, ':SS' iff offset%60!=0 must match. non-trivial = offsets that are not whole minutes, need >2 hour digits or are negative and smaller than an hour; years outside 0..9999; second 60");
     rec.set_exhaustive(thorough);
     rec.outcome("Z");
     rec.outcome("+HH:MM");
